@@ -71,6 +71,8 @@ def run(ctx):
     valid = binlib.sdecode_many(hexes)
     lines, names = [], []
     for (name, e), h, v in zip(cases, hexes, valid):
+        if oracle_silent(ctx, "C07-binary", "btrav 0 " + h, v):
+            continue
         if v is None:                      # judged malformed by the independent decoder
             lines.append("btrav 0 " + h)
             names.append(name)
